@@ -20,8 +20,24 @@
 #ifndef VF_PART
 #define VF_PART 0
 #endif
+// VF_PTRBITS = 48 / 32: every container allocates through a manager that declares ptrUsefulBitCount = 48 / 32 (32: from an
+// arena below 4 GB); the build also defines MOMO_MEM_MANAGER_PTR_USEFUL_BIT_COUNT (see common/verif_ptrbits.h, observation O3),
+// so that BucketLimP4 packs pointer and state into 6 / 4 bytes (BucketLimP4PtrState) and keeps 6 / 8 metadata bytes
+#ifndef VF_PTRBITS
+#define VF_PTRBITS 0
+#endif
+#include "common/verif_ptrbits.h"
 
 using namespace vf;
+
+#if VF_PTRBITS
+typedef FaultMMBits<VF_PTRBITS> HMM;
+#else
+typedef FaultMM HMM;
+#endif
+
+// run-time override of HashTraits::GetLogStartBucketCount (0 = none): a traits class that asks for an absurd first table
+static size_t g_logStartOverride = 0;
 
 struct NoExtra : public momo::HashSetSettings { static const momo::ExtraCheckMode extraCheckMode = momo::ExtraCheckMode::nothing; };
 struct NoExtraMap : public momo::HashMapSettings { static const momo::ExtraCheckMode extraCheckMode = momo::ExtraCheckMode::nothing; };
@@ -32,7 +48,7 @@ struct FamTraits : public momo::HashTraits<Key, HashBucket>
 	static const bool isFastNothrowHashable = tFast;
 	template<typename ItemTraits>
 	using Bucket = typename HashBucket::template Bucket<ItemTraits, !isFastNothrowHashable>;
-	size_t GetLogStartBucketCount() const noexcept { return tLogStart; }
+	size_t GetLogStartBucketCount() const noexcept { return g_logStartOverride ? g_logStartOverride : tLogStart; }
 	size_t GetHashCode(const Key& key) const { return famHash(idOf(key)); }
 	bool IsEqual(const Key& a, const Key& b) const { return idOf(a) == idOf(b); }
 };
@@ -42,7 +58,7 @@ static uint64_t mixh(uint64_t h, uint64_t x) { return h * 1000003ull + x + 1; }
 // ---------- adapters: uniform view of HashSet<Key> and HashMap<Key, uint32_t>
 template<typename Key, typename Traits>
 struct SetAd {
-	typedef momo::HashSet<Key, Traits, FaultMM, momo::HashSetItemTraits<Key, FaultMM>, NoExtra> C;
+	typedef momo::HashSet<Key, Traits, HMM, momo::HashSetItemTraits<Key, HMM>, NoExtra> C;
 	typedef C HS;
 	static const bool isMap = false;
 	C c;
@@ -62,7 +78,7 @@ struct SetAd {
 
 template<typename Key, typename Traits>
 struct MapAd {
-	typedef momo::HashMap<Key, uint32_t, Traits, FaultMM, momo::HashMapKeyValueTraits<Key, uint32_t, FaultMM>, NoExtraMap> C;
+	typedef momo::HashMap<Key, uint32_t, Traits, HMM, momo::HashMapKeyValueTraits<Key, uint32_t, HMM>, NoExtraMap> C;
 	typedef decltype(C::mHashSet) HS;
 	static const bool isMap = true;
 	C c;
@@ -142,6 +158,63 @@ static size_t fullFromByPools()
 	return Bucket::maxCount;
 }
 
+// largest legal log2(bucket count): HashSetBuckets::Create throws std::length_error above it
+template<typename HS>
+static size_t maxLogOf()
+{
+	size_t K = 0;
+	while (K + 1 < 64 && (size_t{1} << (K + 1)) <= HS::Buckets::maxBucketCount) ++K;
+	return K;
+}
+
+// width of the packed (pointer, state) field of BucketLimP4 (0 for the other bucket classes)
+template<typename B> static auto ptrStateBits(int) -> decltype(size_t{B::PtrState::bitCount}) { return B::PtrState::bitCount; }
+template<typename B> static size_t ptrStateBits(long) { return 0; }
+
+// Bucket interface of the table (HashSet::GetBucketCount / GetBucketBounds / GetBucketIndex) against a direct walk over the
+// generations: bucket indices run through the newest bucket array first, then through the older ones that still hold items
+// after an interrupted migration. Property level (C01: every key is found - here: in the bucket the table reports for it).
+template<typename Ad, typename Key>
+static void bucketApiCheck(Ctx& c, Ad& a, const std::string& suiteName, const char* when)
+{
+	typedef typename Ad::HS HS;
+	HS& s = a.hs();
+	const HS& cs = s;
+	size_t total = 0, gens = 0;
+	for (auto* bk = s.mBuckets; bk != nullptr; bk = bk->GetNextBuckets()) { total += bk->GetCount(); ++gens; }
+	if (cs.GetBucketCount() != total) { c.fail("C01 bucket api: %s %s: GetBucketCount=%zu, the generations have %zu buckets", suiteName.c_str(), when, cs.GetBucketCount(), total); return; }
+	std::map<uint32_t, size_t> where;
+	size_t g = 0, items = 0;
+	for (auto* bk = s.mBuckets; bk != nullptr; bk = bk->GetNextBuckets()) {
+		auto& params = bk->GetBucketParams();
+		for (size_t i = 0; i < bk->GetCount(); ++i, ++g) {
+			auto direct = (*bk)[i].GetBounds(params);
+			auto api = cs.GetBucketBounds(g);
+			std::vector<uint32_t> kd, ka;
+			for (size_t j = 0; j < direct.GetCount(); ++j) kd.push_back(Ad::keyOf(direct[j]));
+			for (const auto& item : api) ka.push_back(Ad::keyOf(item));
+			if (kd != ka) { c.fail("C01 bucket api: %s %s: GetBucketBounds(%zu) of %zu (generation with 2^%zu buckets, %zu generations) has %zu items, the bucket itself %zu (or other keys)",
+				suiteName.c_str(), when, g, total, bk->GetLogCount(), gens, ka.size(), kd.size()); return; }
+			for (uint32_t k : kd) where[k] = g;
+			items += kd.size();
+		}
+	}
+	if (items != s.GetCount()) c.fail("C01 bucket api: %s %s: the buckets hold %zu items, GetCount=%zu", suiteName.c_str(), when, items, s.GetCount());
+	if (s.mBuckets == nullptr) return;	// GetBucketIndex requires a table
+	for (auto& kv : where) {
+		size_t bi = cs.GetBucketIndex(Key(kv.first));
+		if (bi != kv.second) { c.fail("C01 bucket api: %s %s: GetBucketIndex(%u)=%zu but the key is stored in bucket %zu (%zu generations)", suiteName.c_str(), when, kv.first, bi, kv.second, gens); return; }
+	}
+	// an absent key: its start bucket in the newest generation
+	for (uint32_t k = 900000; k < 900003; ++k) {
+		if (where.count(k)) continue;
+		size_t bi = cs.GetBucketIndex(Key(k));
+		size_t expect = HS::Bucket::GetStartBucketIndex((size_t)hashFam(hc().fam, k), s.mBuckets->GetCount());
+		if (bi != expect) { c.fail("C01 bucket api: %s %s: GetBucketIndex(absent %u)=%zu, start bucket is %zu", suiteName.c_str(), when, k, bi, expect); return; }
+	}
+	c.stats.count(gens >= 2 ? "bucket_api.checks_with_2plus_generations" : "bucket_api.checks");
+}
+
 struct Cfg { const char* kind; unsigned n; const char* elem; bool fast; bool isMap; unsigned logStart; size_t fullFrom; };
 
 // ---------- one run
@@ -153,9 +226,15 @@ static void runConfig(Ctx& c, Rng& rng, const Cfg& cfg, unsigned fam, unsigned k
 	mm().disarm(); ec().copyCountdown = -1;
 	const bool relocatable = HS::ItemTraits::isNothrowRelocatable;
 	std::string suiteName = fmt("%s%u_%s_%s%s_h%u_r%u", cfg.kind, cfg.n, cfg.elem, cfg.isMap ? "map" : "set", cfg.fast ? "" : "_slow", fam, runNo);
-	Suite s(c, suiteName, fmt("model hashtable kind=%s n=%u isz=%zu ial=%zu part=%d fast=%d reloc=%d fullFrom=%zu logstart=%u hash=%u",
+	const size_t maxLog = maxLogOf<HS>();
+	const size_t pbits = ptrStateBits<typename HS::Bucket>(0);
+	Suite s(c, suiteName, fmt("model hashtable kind=%s n=%u isz=%zu ial=%zu part=%d fast=%d reloc=%d fullFrom=%zu logstart=%u hash=%u maxlog=%zu pbits=%zu",
 		cfg.kind, cfg.n, sizeof(typename HS::Item), (size_t)HS::ItemTraits::alignment, cfg.fast ? 0 : 1, cfg.fast ? 1 : 0,
-		relocatable ? 1 : 0, cfg.fullFrom, cfg.logStart, fam));
+		relocatable ? 1 : 0, cfg.fullFrom, cfg.logStart, fam, maxLog, pbits));
+	if (pbits != 0) {
+		c.stats.count(fmt("limp4.ptr_state_bits_%zu", pbits));
+		if (VF_PTRBITS != 0 && pbits != VF_PTRBITS) c.fail("harness: %s: BucketLimP4PtrState has %zu bits in a build for %d", suiteName.c_str(), pbits, (int)VF_PTRBITS);
+	}
 	// cross-check of what the header line claims about the instantiated types
 	if (HS::areItemsNothrowRelocatable != (cfg.fast && relocatable && HS::Bucket::isNothrowAddableIfNothrowCreatable))
 		c.fail("harness: areItemsNothrowRelocatable mismatch in %s", suiteName.c_str());
@@ -176,6 +255,7 @@ static void runConfig(Ctx& c, Rng& rng, const Cfg& cfg, unsigned fam, unsigned k
 			std::vector<uint32_t> sorted = tr; std::sort(sorted.begin(), sorted.end());
 			std::vector<uint32_t> exp; for (auto& kv : refA) exp.push_back(kv.first);
 			if (sorted != exp) c.fail("C01 traversal: %s %s: traversal visits %zu elements, reference has %zu (or duplicates)", suiteName.c_str(), when, tr.size(), exp.size());
+			bucketApiCheck<Ad, Key>(c, A, suiteName, when);
 		};
 		// scripted prologue (C11, element copies can throw): fresh keys with the migration failing at once, so that
 		// generations pile up across several growth steps; then the failure point is moved inside the oldest generation
@@ -252,14 +332,30 @@ static void runConfig(Ctx& c, Rng& rng, const Cfg& cfg, unsigned fam, unsigned k
 				std::string out;
 				bool threwHashAtLookup = false;
 				uint64_t hashCallsBefore = hc().calls;
+				// no table yet and the traits ask for a first table beyond the largest legal bucket count: HashSetBuckets::Create must
+				// throw std::length_error and the container stays as it was (empty, no buckets); the next insertion builds a normal table
+				bool absurdStart = false;
+				if (forcedCopy < 0 && A.hs().mBuckets == nullptr && !armG && !armA && !armC && !armH && maxLog + 1 < 64 && rng.chance(1, 2)
+					&& A.hs().GetHashTraits().CalcCapacity(size_t{1} << (maxLog + 1), HS::bucketMaxItemCount) > 0) {
+					absurdStart = true; g_logStartOverride = maxLog + 1;
+					ftoks += fmt(" nl=%zu", maxLog + 1);
+					c.stats.count("length_error.absurd_first_table");
+				}
 				try { bool ins = A.insert(k, v); out = ins ? "1" : "0"; if (ins) refA[k] = v; }
+				catch (const std::length_error&) { out = "E:length"; }
 				catch (const std::bad_alloc&) { out = "E:throw"; }
 				catch (const std::runtime_error& e) { out = std::string(e.what()) == "copy" ? "E:throw" : "E:runtime"; }
 				catch (const std::domain_error&) { out = "E:user"; threwHashAtLookup = true; }
 				(void)hashCallsBefore;
 				bool firedG = mm().refused(growSize), firedA = mm().refusedOther(growSize), firedC = ec().firedCopy, firedH = hc().fired;
 				mm().disarm(); ec().copyCountdown = -1; ec().firedCopy = false; hc().throwCountdown = -1; hc().fired = false;
+				g_logStartOverride = 0;
 				std::vector<GenInfo> after; layoutSum<Ad>(A.hs(), &after, nullptr);
+				if (absurdStart) {
+					if (out != "E:length") c.fail("C01 length: %s insert %u with a first table of 2^%zu buckets (max 2^%zu) answered %s, expected std::length_error", suiteName.c_str(), k, maxLog + 1, maxLog, out.c_str());
+					if (A.hs().GetCount() != countBefore || A.hs().mBuckets != nullptr || A.hs().GetCapacity() != 0) c.fail("C04 strong: %s insert %u threw length_error but the table changed", suiteName.c_str(), k);
+				}
+				else if (out == "E:length") c.fail("C01 length: %s insert %u threw std::length_error", suiteName.c_str(), k);
 				if (threwHashAtLookup) {
 					// a throwing hash before anything changed: the lookup of pvInsert, or (slow hash) nothing else can throw E:user out of Insert
 					ftoks += " fh";
@@ -311,21 +407,35 @@ static void runConfig(Ctx& c, Rng& rng, const Cfg& cfg, unsigned fam, unsigned k
 			}
 			else if (r < 86) {
 				size_t cap = (size_t)rng.below(keyRange * 2 + 8);
+				// now and then a request that needs more buckets than HashSetBuckets can hold: std::length_error, table unchanged.
+				// (2^20 above the capacity of the largest legal table: the floating-point capacity formulas are exact to ~2^11 there)
+				bool huge = false;
+				if (rng.chance(1, 8) && maxLog + 1 < 64) {
+					const auto& tr = A.hs().GetHashTraits();
+					size_t capK = tr.CalcCapacity(size_t{1} << maxLog, HS::bucketMaxItemCount), capK1 = tr.CalcCapacity(size_t{1} << (maxLog + 1), HS::bucketMaxItemCount);
+					if (capK1 > capK && capK1 - capK > (size_t{1} << 21)) { huge = true; cap = capK + (size_t{1} << 20); c.stats.count("length_error.huge_reserve"); }
+				}
 				std::vector<GenInfo> before; layoutSum<Ad>(A.hs(), &before, nullptr);
 				size_t countBefore = A.hs().GetCount();
+				const std::string summaryBefore = summary(A);
 				std::string ftoks, out = "ok";
 				// size of the bucket array Reserve will allocate
 				size_t rnl = A.hs().pvGetNewLogBucketCount();
 				while (A.hs().GetHashTraits().CalcCapacity(size_t{1} << rnl, HS::bucketMaxItemCount) < cap) ++rnl;
 				const size_t growSize = HS::Buckets::pvGetBufferSize(rnl);
 #if VF_FAULTS
-				if (rng.chance(1, 3) && cap > A.hs().GetCapacity()) {
+				if (!huge && rng.chance(1, 3) && cap > A.hs().GetCapacity()) {
 					if (rng.chance(1, 2)) {
 						mm().refuseSize = growSize;
 					} else { mm().refuseAfter = (long)rng.range(1, 4); if (!cfg.fast) hc().throwCountdown = (long)rng.below(5); }
 				}
 #endif
-				try { A.hs().Reserve(cap); } catch (const std::bad_alloc&) { out = "E:throw"; }
+				try { A.hs().Reserve(cap); } catch (const std::bad_alloc&) { out = "E:throw"; } catch (const std::length_error&) { out = "E:length"; }
+				if (huge) {
+					if (out != "E:length") c.fail("C01 length: %s Reserve(%zu) needs 2^%zu buckets (max 2^%zu) but answered %s, expected std::length_error", suiteName.c_str(), cap, rnl, maxLog, out.c_str());
+					if (summary(A) != summaryBefore) c.fail("C04 strong: %s Reserve(%zu) threw length_error but the table changed: %s -> %s", suiteName.c_str(), cap, summaryBefore.c_str(), summary(A).c_str());
+				}
+				else if (out == "E:length") c.fail("C01 length: %s Reserve(%zu) threw std::length_error", suiteName.c_str(), cap);
 				bool firedG = mm().refused(growSize);
 				mm().disarm(); hc().throwCountdown = -1; hc().fired = false;
 				std::vector<GenInfo> after; layoutSum<Ad>(A.hs(), &after, nullptr);
@@ -393,7 +503,7 @@ static void runConfig(Ctx& c, Rng& rng, const Cfg& cfg, unsigned fam, unsigned k
 			}
 			{
 				std::vector<GenInfo> g; layoutSum<Ad>(A.hs(), &g, nullptr);
-				if (g.size() >= 2) c.stats.count("state.ops_with_2plus_generations");
+				if (g.size() >= 2) { c.stats.count("state.ops_with_2plus_generations"); bucketApiCheck<Ad, Key>(c, A, suiteName, op.c_str()); }
 				if (g.size() >= 3) c.stats.count("state.ops_with_3plus_generations");
 				if (!g.empty() && g[0].L > cfg.logStart) c.stats.count("state.ops_after_growth");
 			}
@@ -469,6 +579,32 @@ int main(int argc, char** argv)
 	KIND(momo::HashBucketOne<>, Elem4, true, false, 3, "One", 1, "e4", nullptr);
 	KIND(momo::HashBucketOne<>, E16, false, true, 3, "One", 1, "e16", nullptr);
 	KIND(momo::HashBucketOne<>, ElemCO, true, false, 3, "One", 1, "co", nullptr);
+#elif VF_PART == 3
+	// configuration corners of the chained buckets.
+	// (1) HashBucketLimP<5..15> with pointer state: (items pointer, count, pool index) are packed into one word and decoded by
+	//     UIntMath::DivBySmall with a divisor > 4 (pool index resp. pool index rounded up to even): 8-byte item with alignment 8
+	//     (odd pools skipped, divisors 2,4,6,8), 16-byte items (divisors 1..7), map pairs, a copy-only key, LimP<15> with a
+	//     16-byte item of alignment 16 (divisors 2..16)
+	typedef ElemT<8, 8> E8; typedef ElemT<16, 16> E16A;
+	typedef momo::HashBucketLimP<7> LimP7; typedef momo::HashBucketLimP<15> LimP15;
+	KIND(LimP7, E8, true, false, 2, "LimP", 7, "e8", POOLS(LimP7, E8, true, false, 2));
+	KIND(LimP7, E16, true, false, 1, "LimP", 7, "e16", POOLS(LimP7, E16, true, false, 1));
+	KIND(LimP7, E8, false, true, 2, "LimP", 7, "e8", POOLS(LimP7, E8, false, true, 2));
+	KIND(LimP7, ElemCO8, true, false, 2, "LimP", 7, "co8", POOLS(LimP7, ElemCO8, true, false, 2));
+	KIND(LimP15, E16A, true, false, 1, "LimP", 15, "e16a", POOLS(LimP15, E16A, true, false, 1));
+	// (2) memory pools with one block per buffer (MemPoolParams<1>): CanDeallocateAll() is false, so Clear / destruction give every
+	//     bucket array back one by one (the memPool.Deallocate branch of BucketLimP / BucketLimP1 / BucketLimP4::Clear)
+	typedef momo::MemPoolParams<1> Pool1;
+	typedef momo::HashBucketLimP<3, Pool1> LimP3x1; typedef momo::HashBucketLimP<5, Pool1, false> LimP5x1; typedef momo::HashBucketLimP<7, Pool1> LimP7x1;
+	KIND(LimP3x1, Elem4, true, false, 2, "LimP", 3, "e4x1", POOLS(LimP3x1, Elem4, true, false, 2));
+	KIND(LimP5x1, E16, true, true, 2, "LimP", 5, "e16x1", POOLS(LimP5x1, E16, true, true, 2));
+	KIND(LimP7x1, ElemCO8, true, false, 2, "LimP", 7, "co8x1", POOLS(LimP7x1, ElemCO8, true, false, 2));
+	typedef momo::HashBucketLimP1<3, Pool1> LimP1x1;
+	KIND(LimP1x1, ElemNM, true, true, 2, "LimP1", 3, "nmx1", POOLS(LimP1x1, ElemNM, true, true, 2));
+	KIND(LimP1x1, ElemCO, true, false, 2, "LimP1", 3, "cox1", POOLS(LimP1x1, ElemCO, true, false, 2));
+	typedef momo::HashBucketLimP4<4, Pool1> LimP4x1;
+	KIND(LimP4x1, Elem4, true, false, 2, "LimP4", 4, "e4x1", nullptr);
+	KIND(LimP4x1, ElemCO, false, true, 2, "LimP4", 4, "cox1", nullptr);
 #else
 	// open addressing
 	KIND(momo::HashBucketOpen2N2<1>, Elem4, true, false, 3, "Open2N2", 1, "e4", nullptr);
